@@ -108,3 +108,24 @@ impl TaskMap {
     #[verifier::external_body]
     pub fn keys(&self) -> (r: Vec<TaskKey>) ensures keys_listed(self@, r@) { unimplemented!() }
 }
+// ---- Display texts used as property keys (rule R32: `format!("LIT{x}")` = the literal followed by the Display text of x) ----------
+/// the text `Display` renders (TRUSTED per implementing type; the Display impls of Uuid/Tag/i64/String are not verified)
+pub trait DisplayText { spec fn display_text(&self) -> Seq<char>; }
+impl DisplayText for String { open spec fn display_text(&self) -> Seq<char> { self@ } }
+impl DisplayText for str { open spec fn display_text(&self) -> Seq<char> { self@ } }
+impl DisplayText for Uuid { open spec fn display_text(&self) -> Seq<char> { uuid_text(*self) } }
+pub uninterp spec fn int_text(i: int) -> Seq<char>;
+impl DisplayText for i64 { open spec fn display_text(&self) -> Seq<char> { int_text(*self as int) } }
+impl<T: DisplayText + ?Sized> DisplayText for &T { open spec fn display_text(&self) -> Seq<char> { (**self).display_text() } }
+#[verifier::external_body]
+pub fn fmt_prefixed<T: DisplayText + ?Sized>(lit: &str, x: &T) -> (r: String)
+    ensures r@ == lit@ + x.display_text()
+{ unimplemented!() }
+/// `str::starts_with` (generic over the unstable Pattern trait); for a string pattern it is "has this prefix"
+pub uninterp spec fn pat_prefix<P>(s: Seq<char>, p: P) -> bool;
+#[verifier::allow(undeclared_external_trait)]
+pub assume_specification<'a, P: core::str::pattern::Pattern>[ str::starts_with::<P> ](s: &'a str, p: P) -> (r: bool)
+    ensures r == pat_prefix::<P>(s@, p);
+pub open spec fn has_prefix(k: Seq<char>, pre: Seq<char>) -> bool { k.len() >= pre.len() && k.take(pre.len() as int) == pre }
+pub axiom fn axiom_str_pat(s: Seq<char>, p: &str)
+    ensures pat_prefix::<&str>(s, p) == has_prefix(s, p@);
